@@ -32,6 +32,12 @@ type Case struct {
 }
 
 func check(c Case) (pbt.Info, error) {
+	if c.Elem == "bigint" {
+		return checkE(c, script.BigIntDomain, func(s string) (int, bool) {
+			n, err := strconv.ParseInt(s, 10, 64)
+			return int(n), err == nil
+		})
+	}
 	if c.Elem == "int" {
 		return checkE(c, script.IntDomain, func(s string) (int, bool) {
 			n, err := strconv.ParseInt(s, 10, 64)
@@ -275,12 +281,15 @@ func elemJSON(t *rapid.T, elem string, n int, allowBad bool) string {
 		if elem == "int" {
 			return strconv.Itoa(script.IntDomain.At(i))
 		}
+		if elem == "bigint" {
+			return strconv.Itoa(script.BigIntDomain.At(i))
+		}
 		b, _ := json.Marshal(script.StringDomain.At(i))
 		return string(b)
 	case 1:
 		return "null"
 	case 2: // wrong scalar type
-		if elem == "int" {
+		if elem == "int" || elem == "bigint" {
 			return `"x"`
 		}
 		return "7"
@@ -295,8 +304,11 @@ func elemJSON(t *rapid.T, elem string, n int, allowBad bool) string {
 
 func keyJSON(t *rapid.T, elem string, n int) string {
 	i := rapid.IntRange(0, n-1).Draw(t, "k")
-	if elem == "int" {
+	if elem == "int" || elem == "bigint" {
 		s := strconv.Itoa(script.IntDomain.At(i))
+		if elem == "bigint" {
+			s = strconv.Itoa(script.BigIntDomain.At(i))
+		}
 		switch rapid.IntRange(0, 11).Draw(t, "kform") {
 		case 0:
 			return `"x` + s + `"` // not a number: key type error
@@ -320,6 +332,9 @@ func genInput(t *rapid.T, kind, elem string, capHint int) []byte {
 	if elem == "string" {
 		n = len(script.StringDomain.Elems)
 	}
+	if elem == "bigint" {
+		n = len(script.BigIntDomain.Elems)
+	}
 	kv := all.KeyValue(kind)
 	var doc string
 	switch dom.Weighted(t, "top", 70, 5, 4, 4, 3, 6) {
@@ -337,6 +352,9 @@ func genInput(t *rapid.T, kind, elem string, capHint int) []byte {
 		maxItems := 6
 		if capHint > 0 {
 			maxItems = capHint + 3 // longer than the ring
+		}
+		if elem == "bigint" {
+			maxItems = []int{20, 70, 150, 2*capHint + 5}[rapid.IntRange(0, 3).Draw(t, "maxitems")]
 		}
 		cnt := rapid.IntRange(0, maxItems).Draw(t, "items")
 		allowBad := rapid.IntRange(0, 2).Draw(t, "allowbad") == 0
@@ -400,6 +418,21 @@ func gen(kind, elem string) func(t *rapid.T) Case {
 			n = len(script.StringDomain.Elems)
 		}
 		c := Case{Cfg: script.GenCfg(t, kind), Elem: elem}
+		if elem == "bigint" { // large prior content, long inputs, many follow-ups
+			n = len(script.BigIntDomain.Elems)
+			if kind == "circularbuffer" {
+				c.Cfg.Cap = []int{9, 16, 31, 64, 100}[rapid.IntRange(0, 4).Draw(t, "bigcap")]
+			}
+			if kind == "btree" {
+				c.Cfg.Order = []int{3, 4, 7, 16, 33}[rapid.IntRange(0, 4).Draw(t, "bigorder")]
+			}
+			c.Prior = script.GenOpsBig(t, kind, n)
+			c.In = genInput(t, kind, elem, c.Cfg.Cap)
+			c.Show = fmt.Sprintf("%q", c.In)
+			c.Via = []string{"fromjson", "unmarshal"}[rapid.IntRange(0, 1).Draw(t, "via")]
+			c.Cont = script.GenOps(t, kind, n, 40)
+			return c
+		}
 		c.Prior = script.GenOps(t, kind, n, 10)
 		c.In = genInput(t, kind, elem, c.Cfg.Cap)
 		c.Show = fmt.Sprintf("%q", c.In)
@@ -418,6 +451,7 @@ func TestGenerated(t *testing.T) {
 		for _, elem := range []string{"int", "string"} {
 			pbt.Run(t, pbt.Target[Case]{Name: kind + "/" + elem, Checks: 4000, Gen: gen(kind, elem), Check: check})
 		}
+		pbt.Run(t, pbt.Target[Case]{Name: kind + "/bigint", Checks: 200, Gen: gen(kind, "bigint"), Check: check})
 	}
 }
 
